@@ -40,7 +40,7 @@ try:
         for t, d in placements:
             shutil.copy(t, os.path.join(wt, d, os.path.basename(t)))
         pk = " ".join(sorted(set("./" + d + "/" for _, d in placements)))
-        r = sh("cd %s && go test -mod=mod -vet=off -count=1 %s" % (wt, pk))
+        r = sh("cd %s && go test -tags verif -mod=mod -vet=off -count=1 %s" % (wt, pk))
         for t, d in placements:
             os.remove(os.path.join(wt, d, os.path.basename(t)))
         if mdir:
@@ -54,7 +54,7 @@ try:
     assert b.returncode == 0, "baseline broken: " + b.stdout.decode()
     rc1, out1 = run_demo()
     assert rc1 != 0, "demo does not fail with the patch"
-    out = "/verif/seeded/%s-%s" % (pid, k)
+    out = "/verif/seeded/%s" % os.environ.get("SEED_DST", "%s-%s" % (pid, k))
     shutil.rmtree(out, ignore_errors=True)
     os.makedirs(out)
     shutil.copy(patch, out + "/patch.diff")
